@@ -294,8 +294,13 @@ func Check(t rep.Fataler, ID, sub string, c Case) {
 	}
 	if r.Hang {
 		// bounded liveness: confirm with a 5x bound on the same recorded vector
-		r, recorded, c2, err = retry(&c, js, 5*bound)
+		// (once a hang has been confirmed in this process the library is only
+		// minimising that case: no further confirmation passes)
+		if !sim.HangSeen() {
+			r, recorded, c2, err = retry(&c, js, 5*bound)
+		}
 		if err == nil && r.Hang {
+			sim.NoteHang()
 			c.Vector = recorded
 			rep.Fail(t, ID, sub, c, map[string]any{"recorded": recorded, "retry": r}, "the retry of the recorded vector {%s} never terminates: %s", vectorKey(recorded), r.HangInfo)
 		}
